@@ -289,9 +289,9 @@ operand = selector | identifier
 condition = infix_notation(
     operand,
     [
-        ("not", 1, opAssoc.RIGHT, ConditionNOT.from_parsed),
-        ("and", 2, opAssoc.LEFT, ConditionAND.from_parsed),
-        ("or", 2, opAssoc.LEFT, ConditionOR.from_parsed),
+        (Keyword("not"), 1, opAssoc.RIGHT, ConditionNOT.from_parsed),
+        (Keyword("and"), 2, opAssoc.LEFT, ConditionAND.from_parsed),
+        (Keyword("or"), 2, opAssoc.LEFT, ConditionOR.from_parsed),
     ],
 )
 
